@@ -207,7 +207,17 @@ func H_C07_trunk_error_wrapped() {
 //verif:symbytes
 //verif:preempt 0
 //verif:expect-cover done delivered
-func H_C11_reopen() {
+func H_C11_reopen() { reopenRun() }
+
+// H_C10_reopen: the same scenario seen from C10: what is written to a connection id reaches the connection
+// currently open under that id, also after an earlier connection with the same id was closed (twice).
+//verif:property C10
+//verif:symbytes
+//verif:preempt 0
+//verif:expect-cover done delivered
+func H_C10_reopen() { reopenRun() }
+
+func reopenRun() {
 	ta := &envTrunk{}
 	a := rawMux(ta, 4)
 	id := ConnID(nondetUint32())
